@@ -293,6 +293,12 @@ class Repo:
             return self._mro_cache[key]
         out = []
         tables = self._function_tables(fi.module)
+        a_ = fi.node.args if isinstance(fi.node, (ast.FunctionDef, ast.Lambda)) else None
+        params = {x.arg for x in (a_.posonlyargs + a_.args + a_.kwonlyargs)} if a_ is not None else set()
+        # (callables the library is handed by its user -- conditions, sizes -- are events of the
+        # rules, not unresolved flow: only parameters of private helpers count)
+        if not fi.qual.split('.')[-1].startswith('_') or fi.qual.split('.')[-1].startswith('__'):
+            params = set()
         for n in ast.walk(fi.node):
             if isinstance(n, ast.Call):
                 nm = call_name(n) or ''
@@ -302,6 +308,8 @@ class Repo:
                 if isinstance(f, ast.Subscript) and not (isinstance(f.value, ast.Name) and f.value.id in self.module_tables(fi.module)
                                                          and all(isinstance(v, ast.Lambda) for v in self.module_tables(fi.module)[f.value.id].values)):
                     out.append('call through a container: %s(...)' % canon(f)[:50])
+                if isinstance(f, ast.Name) and f.id in params and f.id not in ('self', 'cls'):
+                    out.append('call of a parameter: %s(...)' % f.id)
                 if isinstance(f, ast.Call) and (call_name(f) or '') == 'getattr' and len(f.args) >= 2 and not isinstance(f.args[1], ast.Constant):
                     out.append('call of a computed attribute: %s(...)' % canon(f)[:50])
                 if isinstance(f, ast.Call) and (call_name(f) or '') in self.HIGHER_ORDER:
